@@ -61,7 +61,15 @@ type c10Case struct {
 	SType  string   `json:"stype"`
 	CType  string   `json:"ctype"`
 	Hdr    *string  `json:"hdr"` // raw header value (plain ASCII), null = header not sent
+	Reqs   []c10Req `json:"reqs"` // k=reauth: the POST /auth requests sent one after the other on ONE connection
 }
+
+type c10Req struct {
+	Hdr *string `json:"hdr"` // Hysteria-CC-RX, null = header not sent
+	Acc bool    `json:"acc"` // does the Authenticator accept the credentials of this request
+}
+
+const c10BadAuth = "no" // the one credential the recording Authenticator refuses
 
 const c10MaxU64 = ^uint64(0)
 
@@ -113,7 +121,7 @@ func (r *c10Rec) Authenticate(addr net.Addr, auth string, tx uint64) (bool, stri
 	r.mu.Lock()
 	r.authTx = append(r.authTx, tx)
 	r.mu.Unlock()
-	return true, "nobody"
+	return auth != c10BadAuth, "nobody"
 }
 
 func (r *c10Rec) Connect(addr net.Addr, id string, tx uint64) {
@@ -506,7 +514,13 @@ func c10RawReq(c c10Case, res map[string]any) {
 		v.fail("server declared rx %q, configured %q", got, wantHdr)
 	}
 	connectTx, kind, bps := res["connect_tx"].(uint64), res["s_kind"].(string), res["s_bps"].(int64)
-	decl, wf, ovf := c10Declared(c.Hdr)
+	c10RawServerVerdict(v, c, c.Hdr, connectTx, kind, bps)
+}
+
+// c10RawServerVerdict: what a server configured as c must report (connectTx) and enforce (kind, bps) for a client
+// whose accepted auth request carried the raw Hysteria-CC-RX value hdr
+func c10RawServerVerdict(v *c10Verdict, c c10Case, hdr *string, connectTx uint64, kind string, bps int64) {
+	decl, wf, ovf := c10Declared(hdr)
 	switch {
 	case wf:
 		sf, sr := c10ServerWant(c.Ignore, c.STx, decl)
@@ -526,6 +540,174 @@ func c10RawReq(c c10Case, res map[string]any) {
 		// missing / empty / not a decimal number: the client's rate is unknown
 		c10Side(v, "server", false, 0, c10ConfiguredKind(c.SType), connectTx, kind, bps)
 	}
+}
+
+// c10Reauth: a raw HTTP/3 client sends c.Reqs, one after the other, as POST /auth on ONE QUIC connection to the
+// real server.  After every response the controller on the server side of the connection is read; at the end the
+// Authenticate and Connect calls.  Verdict (implementation alone): requests the Authenticator refuses are not
+// answered 233 and leave the connection's controller alone; the FIRST accepted request negotiates exactly like a
+// single request with its header; every later request is answered 233 with the same declaration and changes
+// nothing: the controller on the connection stays the one of the first accepted request, there is exactly one
+// Connect event (that request's rate) and the Authenticator is not consulted again.
+func c10Reauth(c c10Case, res map[string]any) {
+	v := &c10Verdict{ok: true}
+	defer v.store(res)
+	cs, err := c10StartServer(c)
+	if err != nil {
+		res["err"] = "server"
+		v.fail("server did not start: %v", err)
+		return
+	}
+	defer cs.s.Close()
+	rt := &http3.Transport{
+		TLSClientConfig: &tls.Config{InsecureSkipVerify: true},
+		QUICConfig:      &quic.Config{EnableDatagrams: true, MaxDatagramFrameSize: protocol.MaxDatagramFrameSize},
+		Dial: func(ctx context.Context, _ string, tlsCfg *tls.Config, cfg *quic.Config) (*quic.Conn, error) {
+			return quic.DialAddrEarly(ctx, cs.addr.String(), tlsCfg, cfg)
+		},
+	}
+	defer rt.Close()
+	serverConn := func() *quic.Conn {
+		for i := 0; i < 500; i++ {
+			cs.mu.Lock()
+			n := len(cs.conns)
+			var q *quic.Conn
+			if n > 0 {
+				q = cs.conns[0]
+			}
+			cs.mu.Unlock()
+			if q != nil {
+				return q
+			}
+			time.Sleep(10 * time.Millisecond)
+		}
+		return nil
+	}
+	wantHdr := "auto"
+	if !c.Ignore {
+		wantHdr = strconv.FormatUint(c.SRx, 10)
+	}
+	type obs struct {
+		status int
+		hdr    string
+		kind   string
+		bps    int64
+	}
+	seen := make([]obs, 0, len(c.Reqs))
+	first := -1 // index of the first accepted request
+	for i, rq := range c.Reqs {
+		req := &http.Request{
+			Method: http.MethodPost,
+			URL:    &url.URL{Scheme: "https", Host: protocol.URLHost, Path: protocol.URLPath},
+			Header: make(http.Header),
+		}
+		if rq.Acc {
+			req.Header.Set(protocol.RequestHeaderAuth, "x")
+		} else {
+			req.Header.Set(protocol.RequestHeaderAuth, c10BadAuth)
+		}
+		if rq.Hdr != nil {
+			req.Header.Set(protocol.CommonHeaderCCRX, *rq.Hdr)
+		}
+		ctx, cancel := context.WithTimeout(context.Background(), 10*time.Second)
+		resp, err := rt.RoundTrip(req.WithContext(ctx))
+		if err != nil {
+			cancel()
+			res["err"] = "roundtrip"
+			v.fail("request %d failed: %v", i, err)
+			return
+		}
+		_ = resp.Body.Close()
+		cancel()
+		sc := serverConn()
+		if sc == nil {
+			res["err"] = "observe"
+			v.fail("server did not accept the connection")
+			return
+		}
+		o := obs{status: resp.StatusCode, hdr: resp.Header.Get(protocol.CommonHeaderCCRX)}
+		if rq.Acc && first < 0 {
+			first = i
+			// the Connect event of the request that authenticates follows its response
+			select {
+			case <-cs.rec.connected:
+			case <-time.After(10 * time.Second):
+				res["err"] = "observe"
+				v.fail("server never logged Connect")
+				return
+			}
+		}
+		o.kind, o.bps = c10Installed(sc)
+		seen = append(seen, o)
+	}
+	time.Sleep(60 * time.Millisecond) // room for a (wrong) further Connect event, which follows the response
+	cs.rec.mu.Lock()
+	authTx := append([]uint64(nil), cs.rec.authTx...)
+	connectTx := append([]uint64(nil), cs.rec.connectTx...)
+	cs.rec.mu.Unlock()
+	cs.mu.Lock()
+	nconn := len(cs.conns)
+	cs.mu.Unlock()
+	steps := make([]map[string]any, len(seen))
+	for i, o := range seen {
+		steps[i] = map[string]any{"status": o.status, "resp_hdr": hex.EncodeToString([]byte(o.hdr)), "s_kind": o.kind, "s_bps": o.bps}
+	}
+	res["steps"], res["auth_txs"], res["connect_txs"] = steps, authTx, connectTx
+	if nconn != 1 {
+		res["err"] = "observe"
+		v.fail("the requests were spread over %d connections", nconn)
+		return
+	}
+	for i, o := range seen {
+		switch {
+		case first < 0 || i < first:
+			if o.status == protocol.StatusAuthOK {
+				v.fail("request %d: refused by the Authenticator but answered %d", i, o.status)
+			}
+			if o.kind != "default" {
+				v.fail("request %d: a congestion controller (%s) was installed on an unauthenticated connection", i, o.kind)
+			}
+		default:
+			if o.status != protocol.StatusAuthOK {
+				v.fail("request %d: status %d on an authenticated connection", i, o.status)
+			}
+			if o.hdr != wantHdr {
+				v.fail("request %d: server declared rx %q, configured %q", i, o.hdr, wantHdr)
+			}
+			if i > first && (o.kind != seen[first].kind || o.bps != seen[first].bps) {
+				v.failc("reauth-renegotiated", "request %d (Hysteria-CC-RX %s) on the already authenticated connection changed the enforced rate: "+
+					"%s@%d was negotiated and reported by request %d, now %s@%d is installed", i, c10ShowHdr(c.Reqs[i].Hdr),
+					seen[first].kind, seen[first].bps, first, o.kind, o.bps)
+			}
+		}
+	}
+	if first < 0 {
+		if len(connectTx) != 0 {
+			v.fail("Connect logged %v although no request was accepted", connectTx)
+		}
+		return
+	}
+	if len(connectTx) != 1 {
+		v.failc("reauth-connect-events", "%d Connect events %v for one connection (accepted request %d, %d requests after it)",
+			len(connectTx), connectTx, first, len(c.Reqs)-1-first)
+		if len(connectTx) == 0 {
+			return
+		}
+	}
+	if len(authTx) != first+1 {
+		v.failc("reauth-authenticator", "Authenticator consulted %d times %v, expected %d (the refused requests and the first accepted one)",
+			len(authTx), authTx, first+1)
+	}
+	// the first accepted request negotiates like a single request; reported (the one Connect event) = enforced NOW
+	last := seen[len(seen)-1]
+	c10RawServerVerdict(v, c, c.Reqs[first].Hdr, connectTx[0], last.kind, last.bps)
+}
+
+func c10ShowHdr(h *string) string {
+	if h == nil {
+		return "<missing>"
+	}
+	return strconv.Quote(*h)
 }
 
 // real client -> fake HTTP/3 server answering 233 with an arbitrary Hysteria-CC-RX
@@ -669,6 +851,8 @@ func TestVerifC10(t *testing.T) {
 			run(c10RawReq)
 		case "rawresp":
 			run(c10RawResp)
+		case "reauth":
+			run(c10Reauth)
 		default:
 			t.Fatalf("unknown case kind %q", c.K)
 		}
